@@ -349,4 +349,320 @@ theorem normalize_id (cs : List Char)
     simp [(h c hc).2.2]
   unfold bech32Normalize
   simp [h1, h2]
+/-! ### the other direction: encode undoes decode -/
+
+theorem natBits8_bitsNat (g : List Bool) (h : g.length = 8) : natBits 8 (bitsNat g) = g := by
+  match g, h with
+  | [a, b, c, d, e, f, x, y], _ =>
+    cases a <;> cases b <;> cases c <;> cases d <;> cases e <;> cases f <;> cases x <;> cases y <;> decide
+
+theorem natBits8_ofNat_bitsNat (g : List Bool) (h : g.length = 8) :
+    natBits 8 (UInt8.ofNat (bitsNat g)).toNat = g := by
+  have hl := bitsNat_lt g
+  rw [h] at hl
+  rw [UInt8.toNat_ofNat', Nat.mod_eq_of_lt (by omega)]
+  exact natBits8_bitsNat g h
+
+theorem bitsNat_eq_zero (bs : List Bool) (h : bitsNat bs = 0) : bs = List.replicate bs.length false := by
+  induction bs with
+  | nil => rfl
+  | cons b bs ih =>
+    simp only [bitsNat] at h
+    have hp : 0 < 2 ^ bs.length := Nat.pow_pos (by decide)
+    cases b with
+    | true => simp at h <;> omega
+    | false =>
+      simp at h
+      rw [List.length_cons, List.replicate_succ, ← ih h]
+
+theorem length_bits5 (data : Bytes) : (data.flatMap fun b => natBits 5 b.toNat).length = 5 * data.length := by
+  induction data with
+  | nil => rfl
+  | cons b bs ih => simp only [List.flatMap_cons, List.length_append, natBits_length, ih, List.length_cons]; omega
+
+theorem flatMap_natBits5_inj (xs ys : Bytes) (hx : ∀ o ∈ xs, o.toNat < 32) (hy : ∀ o ∈ ys, o.toNat < 32)
+    (h : (xs.flatMap fun b => natBits 5 b.toNat) = ys.flatMap fun b => natBits 5 b.toNat) : xs = ys := by
+  induction xs generalizing ys with
+  | nil =>
+    cases ys with
+    | nil => rfl
+    | cons y ys =>
+      have := congrArg List.length h
+      rw [length_bits5, length_bits5] at this
+      simp at this
+  | cons x xs ih =>
+    cases ys with
+    | nil =>
+      have := congrArg List.length h
+      rw [length_bits5, length_bits5] at this
+      simp at this
+    | cons y ys =>
+      simp only [List.flatMap_cons] at h
+      have ⟨h1, h2⟩ := List.append_inj h (by simp [natBits_length])
+      have hxy : x = y := by
+        have := congrArg bitsNat h1
+        rw [bitsNat_natBits, bitsNat_natBits] at this
+        have a := hx x (by simp)
+        have b := hy y (by simp)
+        apply UInt8.toNat_inj.1
+        omega
+      rw [hxy, ih ys (fun o ho => hx o (by simp [ho])) (fun o ho => hy o (by simp [ho])) h2]
+
+/-- 8→5 with padding undoes 5→8 without padding -/
+theorem convertBits_5_8_5 (data bz : Bytes) (hd : ∀ o ∈ data, o.toNat < 32)
+    (h : convertBits data 5 8 false = some bz) : convertBits bz 8 5 true = some data := by
+  unfold convertBits at h ⊢
+  generalize hb : (data.flatMap fun b => natBits 5 b.toNat) = bits5 at h
+  have hq : 8 * (bits5.length / 8) ≤ bits5.length := Nat.mul_div_le _ _
+  have hlen := chunkN_length_of_mem 8 (bits5.length / 8) bits5 hq
+  have hbz : bz = (chunkN 8 (bits5.length / 8) bits5).map (fun g => UInt8.ofNat (bitsNat g)) ∧
+      (bits5.drop (8 * (bits5.length / 8))).length ≤ 4 ∧ bitsNat (bits5.drop (8 * (bits5.length / 8))) = 0 := by
+    unfold regroup at h
+    by_cases hr : (bits5.drop (8 * (bits5.length / 8))).isEmpty = true
+    · simp only [hr, if_true] at h
+      have : bits5.drop (8 * (bits5.length / 8)) = [] := by simpa using hr
+      rw [this]
+      exact ⟨(Option.some.inj h).symm, by simp, rfl⟩
+    · simp only [hr] at h
+      by_cases hc : ((bits5.drop (8 * (bits5.length / 8))).length > 4 ||
+          bitsNat (bits5.drop (8 * (bits5.length / 8))) ≠ 0) = true
+      · rw [if_pos hc] at h; simp at h
+      · simp only [Bool.false_eq_true, if_false, hc] at h
+        simp only [Bool.or_eq_true, decide_eq_true_eq, not_or, Nat.not_lt, ne_eq, Decidable.not_not] at hc
+        exact ⟨(Option.some.inj h).symm, hc.1, hc.2⟩
+  obtain ⟨hbz, hr4, hr0⟩ := hbz
+  have hbits8 : (bz.flatMap fun b => natBits 8 b.toNat) = bits5.take (8 * (bits5.length / 8)) := by
+    rw [hbz, flatMap_map_id _ (fun g => UInt8.ofNat (bitsNat g)) (fun b => natBits 8 b.toNat)
+      (fun c hc => natBits8_ofNat_bitsNat c (hlen c hc)), flatten_chunkN]
+  have hsplit : bits5 = (bz.flatMap fun b => natBits 8 b.toNat) ++
+      List.replicate (bits5.drop (8 * (bits5.length / 8))).length false := by
+    rw [hbits8, ← bitsNat_eq_zero _ hr0, List.take_append_drop]
+  obtain ⟨out, k, h1, hk, h2, h3⟩ := regroup5_spec (bz.flatMap fun b => natBits 8 b.toNat)
+  rw [h1]
+  congr 1
+  apply flatMap_natBits5_inj out data h3 hd
+  rw [h2, hb, hsplit]
+  have e1 := congrArg List.length h2
+  have e2 := congrArg List.length hb
+  have e3 := congrArg List.length hsplit
+  rw [length_bits5, List.length_append, List.length_replicate] at e1
+  rw [length_bits5] at e2
+  rw [List.length_append, List.length_replicate] at e3
+  have : k = (bits5.drop (8 * (bits5.length / 8))).length := by omega
+  rw [this]
+theorem charsetIndex_some (c : Char) (v : Nat) (h : charsetIndex? c = some v) : v < 32 ∧ charsetChar v = c := by
+  unfold charsetIndex? at h
+  simp only at h
+  split at h
+  · rename_i hlt
+    cases h
+    refine ⟨hlt, ?_⟩
+    have hl : bech32Charset.findIdx (· = c) < bech32Charset.length := hlt
+    have := List.findIdx_getElem (w := hl)
+    simp only [decide_eq_true_eq] at this
+    unfold charsetChar
+    rw [List.getD_eq_getElem?_getD, List.getElem?_eq_getElem hl]
+    exact this
+  · cases h
+
+theorem charsetDecode_some (cs : List Char) : ∀ vs, charsetDecode cs = some vs →
+    cs = vs.map charsetChar ∧ ∀ v ∈ vs, v < 32 := by
+  induction cs with
+  | nil => intro vs h; cases h; exact ⟨rfl, by simp⟩
+  | cons c cs ih =>
+    intro vs h
+    unfold charsetDecode at h
+    split at h
+    · rename_i v vs' h1 h2
+      cases h
+      have ⟨a, b⟩ := charsetIndex_some c v h1
+      have ⟨e, f⟩ := ih vs' h2
+      refine ⟨by rw [List.map_cons, b, ← e], ?_⟩
+      intro x hx
+      rcases List.mem_cons.1 hx with rfl | hx
+      · exact a
+      · exact f x hx
+    · cases h
+
+theorem splitLast_some (c : Char) (cs : List Char) : ∀ a b, splitLast c cs = some (a, b) → cs = a ++ c :: b := by
+  induction cs with
+  | nil => intro a b h; cases h
+  | cons x xs ih =>
+    intro a b h
+    cases hs : splitLast c xs with
+    | some p =>
+      obtain ⟨a', b'⟩ := p
+      simp only [splitLast, hs] at h
+      have h' := Prod.mk.inj (Option.some.inj h)
+      rw [← h'.1, ← h'.2, List.cons_append, ← ih a' b' hs]
+    | none =>
+      simp only [splitLast, hs] at h
+      split at h
+      · rename_i hx
+        cases h
+        rw [hx]; rfl
+      · cases h
+
+theorem lower_not_upper : ∀ n ≤ 126, isUpperAscii (lowerChar (Char.ofNat n)) = false := by decide
+
+theorem normalize_some (cs cs' : List Char) (h : bech32Normalize cs = some cs') :
+    cs' = cs.map lowerChar ∧ ∀ c ∈ cs', isUpperAscii c = false := by
+  unfold bech32Normalize at h
+  split at h
+  · cases h
+  · rename_i hr
+    have hrange : ∀ c ∈ cs, c.toNat ≤ 126 := by
+      intro c hc
+      have := (by simpa using hr : ∀ x ∈ cs, 33 ≤ x.toNat ∧ x.toNat ≤ 126) c hc
+      omega
+    split at h
+    · cases h
+    · split at h
+      · cases h
+        refine ⟨rfl, ?_⟩
+        intro c hc
+        rcases List.mem_map.1 hc with ⟨d, hd, rfl⟩
+        have := lower_not_upper d.toNat (hrange d hd)
+        rwa [Char.ofNat_toNat] at this
+      · rename_i hu
+        cases h
+        have hno : ∀ c ∈ cs, isUpperAscii c = false := by
+          intro c hc
+          exact (by simpa using hu : ∀ x ∈ cs, isUpperAscii x = false) c hc
+        refine ⟨?_, hno⟩
+        conv => lhs; rw [← List.map_id cs]
+        exact List.map_congr_left fun c hc => (lowerChar_of_not_upper c (hno c hc)).symm
+
+/-- a verifying checksum is the written one -/
+theorem checksum_unique (hrp : List Char) (values cks : List Nat) (hl : cks.length = 6)
+    (hc : ∀ c ∈ cks, c < 32) (h : bech32Polymod hrp values cks = 1) : cks = bech32Checksum hrp values := by
+  have hlt : bech32Polymod hrp values [0, 0, 0, 0, 0, 0] < 2 ^ 30 := by
+    unfold bech32Polymod
+    rw [show ([0, 0, 0, 0, 0, 0] : List Nat) = [0, 0, 0, 0, 0] ++ [0] from rfl, ← List.append_assoc,
+      List.foldl_append]
+    exact polymodStep_lt _ 0 (by decide)
+  have key := foldl_polymod_xor cks ((hrpExpand hrp ++ values).foldl polymodStep 1) 0 hc (by omega)
+    (by rw [hl]; decide)
+  rw [Nat.xor_zero] at key
+  unfold bech32Polymod at h
+  rw [List.foldl_append, key, hl] at h
+  have hz : (List.replicate 6 0).foldl polymodStep
+      ((hrpExpand hrp ++ values).foldl polymodStep 1) = bech32Polymod hrp values [0, 0, 0, 0, 0, 0] := by
+    unfold bech32Polymod
+    rw [List.foldl_append (l' := [0, 0, 0, 0, 0, 0])]
+    rfl
+  rw [hz] at h
+  -- pack 0 cks = P ^^^ 1
+  have hp : pack 0 cks = bech32Polymod hrp values [0, 0, 0, 0, 0, 0] ^^^ 1 := by
+    have := congrArg (bech32Polymod hrp values [0, 0, 0, 0, 0, 0] ^^^ ·) h
+    simp only [← Nat.xor_assoc, Nat.xor_self, Nat.zero_xor] at this
+    exact this
+  unfold bech32Checksum
+  simp only
+  rw [← hp]
+  match cks, hl with
+  | [c1, c2, c3, c4, c5, c6], _ =>
+    have b1 := hc c1 (by simp)
+    have b2 := hc c2 (by simp)
+    have b3 := hc c3 (by simp)
+    have b4 := hc c4 (by simp)
+    have b5 := hc c5 (by simp)
+    have b6 := hc c6 (by simp)
+    have hm : ∀ x : Nat, x &&& 31 = x % 32 := fun x => Nat.and_two_pow_sub_one_eq_mod x 5
+    simp only [pack, List.foldl_cons, List.foldl_nil, hm]
+    rw [shl_xor_eq_add _ _ b1, shl_xor_eq_add _ _ b2, shl_xor_eq_add _ _ b3, shl_xor_eq_add _ _ b4,
+      shl_xor_eq_add _ _ b5, shl_xor_eq_add _ _ b6]
+    simp only [Nat.shiftRight_eq_div_pow]
+    generalize hN : ((((((0 * 32 + c1) * 32 + c2) * 32 + c3) * 32 + c4) * 32 + c5) * 32 + c6) = N
+    have e1 : c1 = N / 2 ^ 25 % 32 := by omega
+    have e2 : c2 = N / 2 ^ 20 % 32 := by omega
+    have e3 : c3 = N / 2 ^ 15 % 32 := by omega
+    have e4 : c4 = N / 2 ^ 10 % 32 := by omega
+    have e5 : c5 = N / 2 ^ 5 % 32 := by omega
+    have e6 : c6 = N % 32 := by omega
+    rw [← e1, ← e2, ← e3, ← e4, ← e5, ← e6]
+
+/-- `Encode` undoes `Decode`: an accepted text is the encoding of what it decodes to, in lower case -/
+theorem bech32Encode_of_decode (cs : List Char) (limit : Nat) (hrp : List Char) (data : Bytes)
+    (h : bech32Decode cs limit = some (hrp, data)) :
+    (∀ o ∈ data, o.toNat < 32) ∧ bech32Encode hrp data = some (cs.map lowerChar) := by
+  unfold bech32Decode at h
+  split at h
+  · cases h
+  split at h
+  · cases h
+  split at h
+  · cases h
+  rename_i cs' hn
+  obtain ⟨hcs', hnoup⟩ := normalize_some cs cs' hn
+  split at h
+  · cases h
+  rename_i hrp' rest hs
+  have hsplit := splitLast_some '1' cs' hrp' rest hs
+  split at h
+  · cases h
+  rename_i hcond
+  split at h
+  · cases h
+  rename_i dec hdec
+  obtain ⟨hrest, hdec32⟩ := charsetDecode_some rest dec hdec
+  simp only at h
+  split at h
+  · rename_i hpoly
+    have h' := Prod.mk.inj (Option.some.inj h)
+    have hrl : ¬ rest.length < 6 := by
+      intro hlt; apply hcond; simp [hlt]
+    have hdl : 6 ≤ dec.length := by
+      have := congrArg List.length hrest
+      rw [List.length_map] at this
+      omega
+    have hv32 : ∀ v ∈ dec.take (dec.length - 6), v < 32 := fun v hv => hdec32 v (List.mem_of_mem_take hv)
+    have hck := checksum_unique hrp' (dec.take (dec.length - 6)) (dec.drop (dec.length - 6))
+      (by rw [List.length_drop]; omega) (fun v hv => hdec32 v (List.mem_of_mem_drop hv)) hpoly
+    have hdata : data.map (·.toNat) = dec.take (dec.length - 6) := by
+      rw [← h'.2, List.map_map]
+      conv => rhs; rw [← List.map_id (dec.take (dec.length - 6))]
+      apply List.map_congr_left
+      intro v hv
+      have := hv32 v hv
+      simp only [Function.comp, UInt8.toNat_ofNat', id]
+      omega
+    have hd32 : ∀ o ∈ data, o.toNat < 32 := by
+      intro o ho
+      have : o.toNat ∈ data.map (·.toNat) := List.mem_map.2 ⟨o, ho, rfl⟩
+      rw [hdata] at this
+      exact hv32 _ this
+    refine ⟨hd32, ?_⟩
+    have hany : data.any (fun b => decide (b.toNat ≥ 32)) = false := by
+      rw [List.any_eq_false]; intro o ho; have := hd32 o ho; simp; omega
+    have hlow : hrp.map lowerChar = hrp := by
+      conv => rhs; rw [← List.map_id hrp]
+      apply List.map_congr_left
+      intro c hc
+      apply lowerChar_of_not_upper
+      apply hnoup
+      rw [hsplit, h'.1]
+      exact List.mem_append_left _ hc
+    simp only [bech32Encode, hany, hlow, hdata]
+    rw [← h'.1, ← hck, List.take_append_drop, ← hrest, ← hsplit, hcs']
+    rfl
+  · cases h
+
+/-- cosmos-sdk level: `ConvertAndEncode` undoes `DecodeAndConvert` up to case -/
+theorem convertAndEncode_of_decodeAndConvert (s hrp : String) (bz : Bytes)
+    (h : decodeAndConvert s = some (hrp, bz)) :
+    convertAndEncode hrp bz = some (String.ofList (s.toList.map lowerChar)) := by
+  unfold decodeAndConvert at h
+  split at h
+  · cases h
+  rename_i hrp' data hd
+  obtain ⟨h32, henc⟩ := bech32Encode_of_decode _ _ _ _ hd
+  cases hc : convertBits data 5 8 false with
+  | none => rw [hc] at h; cases h
+  | some bz' =>
+    rw [hc] at h
+    have h' := Prod.mk.inj (Option.some.inj h)
+    have hback := convertBits_5_8_5 data bz' h32 hc
+    rw [← h'.1, ← h'.2]
+    simp only [convertAndEncode, hback, String.toList_ofList, henc, Option.map_some]
 end PvProofs.Bech32Lemmas
